@@ -54,7 +54,7 @@ def run(ctx: Ctx):
             ctx.ok("field-set-bijection", {"class": cname, "attributes": len(t.classes[cname].fields)})
     # (2) null rule
     exp = special.expected_special(im)
-    omit = special.fold_omit(im)
+    omit = special.folded_omit(im)
     n = 0
     for c in t.attrs_classes():
         for f in c.fields:
